@@ -80,17 +80,25 @@ def run(tier, seed, rep=None, faults=()):
     if tier == "thorough":
         plans = [("all-actions", 3, ("rejects",)), ("core-actions", 4, CORE_OFF), ("all-with-rejects", 2, ())]
     for label, depth, off in plans:
-        raw, gst = tlc.run_paths("GenNexus", cfg(depth, faults, "gen", off=off), timeout=3000)
-        walks = to_walks(raw)
-        results = replay_parallel(walks, replay_walk)
-        report_issues(rep, walks, results, label)
-        rep.coverage.setdefault("replayed", {})[label] = dict(depth=depth, edges_in_model=gst["edges"], histories=len(walks),
-                                                              tlc_wall_s=round(gst["wall_s"], 1))
-        total += len(walks)
-        if walks:
-            w = walks[len(walks) // 2]
-            rep.sample(dict(kind=label + " history", shape=w["shape"], actions=[s["a"] for s in w["steps"]],
-                            observed=[s["o"] for s in w["steps"]], ideal_at_end=w["steps"][-1]["idealAll"]))
+        # thorough: one graph shape at a time (millions of histories: all of them at once do not fit into memory)
+        groups = [[sh] for sh in SHAPES] if tier == "thorough" else [SHAPES]
+        n_hist, n_edges, wall = 0, 0, 0.0
+        for shapes in groups:
+            raw, gst = tlc.run_paths("GenNexus", cfg(depth, faults, "gen", shapes=shapes, off=off), timeout=3000)
+            walks = to_walks(raw)
+            del raw
+            results = replay_parallel(walks, replay_walk)
+            report_issues(rep, walks, results, label)
+            n_hist += len(walks)
+            n_edges += gst["edges"]
+            wall += gst["wall_s"]
+            if walks and shapes[0] == groups[0][0]:
+                w = walks[len(walks) // 2]
+                rep.sample(dict(kind=label + " history", shape=w["shape"], actions=[s["a"] for s in w["steps"]],
+                                observed=[s["o"] for s in w["steps"]], ideal_at_end=w["steps"][-1]["idealAll"]))
+            del walks, results
+        rep.coverage.setdefault("replayed", {})[label] = dict(depth=depth, edges_in_model=n_edges, histories=n_hist, tlc_wall_s=round(wall, 1))
+        total += n_hist
 
     # deeper random walks of the same spec
     num, depth = (150, 10) if tier == "quick" else (2500, 14)
